@@ -185,6 +185,21 @@ def r15_4(chk):
     ok = ckeys_w == ckeys_r and "basestate" in ckeys_w and stored <= restored
     chk.inst("R15.4", f"{COV}::Cov::pickle-state", ok, f"__reduce__ writes {sorted(ckeys_w)}, __setstate__ restores {sorted(restored)} (everything __new__ stores: {sorted(stored)})" if ok else
              f"written {sorted(ckeys_w)} vs read {sorted(ckeys_r)}; __new__ stores {sorted(stored)}, __setstate__ restores {sorted(restored)}", loc(cred, cred.node))
+    # each pickled value comes from the attribute it is restored to: {"data": self._data, "orb_frame": self._orb_frame}
+    saved = {}
+    for n in ast.walk(cred.node):
+        if isinstance(n, ast.Dict):
+            for k, v in zip(n.keys, n.values):
+                if isinstance(k, ast.Constant) and isinstance(v, ast.Attribute) and isinstance(v.value, ast.Name) and v.value.id == "self":
+                    saved[k.value] = v.attr
+    back = {}
+    for n in ast.walk(csst.node):
+        if isinstance(n, ast.Assign) and len(n.targets) == 1 and isinstance(n.targets[0], ast.Attribute) and isinstance(n.targets[0].value, ast.Name) \
+                and n.targets[0].value.id == "self" and isinstance(n.value, ast.Subscript) and isinstance(n.value.slice, ast.Constant):
+            back[n.value.slice.value] = n.targets[0].attr
+    ok = bool(saved) and all(back.get(k) == a for k, a in saved.items())
+    chk.inst("R15.4", f"{COV}::Cov::pickle-pairing", ok, f"every value is restored to the attribute it was taken from: {saved}" if ok else
+             f"saved {saved} but restored {back}: an attribute comes back holding another attribute's value", loc(cred, cred.node))
     # an unpickled array owns its memory: `.base` (which copy(), the setters, as_orbit / as_statevector go through) must not be None
     for rel_, cls_ in ((SV, "StateVector"), (COV, "Cov")):
         b = repo.try_func(rel_, f"{cls_}.base")
